@@ -1,8 +1,107 @@
-/- Driver handlers for area `ident` (stub: replace `handle`). -/
+/- Driver handlers for area `ident` (C17): identifier grammars of /repo/spec + SplitID, and the model of net.ParseIP. -/
 import VDriver.Util
+import VModel.Ident
 namespace V.Driver.IdentOps
-open V V.Driver
+open V V.Driver V.Ident
 
-def handle (_op : String) (_args : Array String) : Option String := none
+def showPort : Option Nat → String
+  | none => "-1"
+  | some p => toString p
+
+def showSN : Option (BS × Option Nat) → String
+  | none => "err"
+  | some (h, p) => "ok:" ++ hex h ++ ":" ++ showPort p
+
+def showPair : Option (BS × BS) → String
+  | none => "err"
+  | some (a, b) => "ok:" ++ hex a ++ ":" ++ hex b
+
+def showRoom : Option (BS × Option BS) → String
+  | none => "err"
+  | some (a, some d) => "ok:" ++ hex a ++ ":" ++ hex d
+  | some (a, none) => "ok:" ++ hex a ++ ":~"
+
+/-- the unique element of a list of grammar derivations -/
+def uniq {α : Type} (f : α → String) : List α → String
+  | [] => "err"
+  | [x] => f x
+  | _ => "ambiguous-grammar"
+
+/-- the final ':'-segment is a digit string of more than 5 digits (the spec grammar says 1*5DIGIT, the
+    property text only "port up to 65535"): outside the property's quantifier -/
+def longPort (s : BS) : Bool :=
+  match (Spec.splitOn 0x3A s).getLast? with
+  | some p => (Spec.splitOn 0x3A s).length > 1 && p.length > 5 && p.all isDigit
+  | none => false
+
+/-- does a server name inside an identifier have an over-long port -/
+def longPortAfterFirstColon (s : BS) : Bool :=
+  match cut 0x3A s with
+  | some (_, d) => longPort d
+  | none => false
+
+/-- ops (all strings hex encoded):
+    servername <s>          ParseAndValidateServerName      ok:<host>:<port|-1> | err
+    userid <0|1> <s>        NewUserID(s, allowHistoricalIDs) ok:<local>:<domain> | err
+    roomid <s>              NewRoomID                       ok:<opaque>:<domain|~> | err
+    splitid <sigil> <s>     SplitID                         ok:<local>:<domain> | err
+    parseip <s>             net.ParseIP (16-byte form)      ok:<16 bytes> | err      (model of the std lib only)
+    isip <s>                net.ParseIP != nil              ip | err                 (+ RFC 4291 recogniser)
+-/
+def handle (op : String) (args : Array String) : Option String :=
+  match op, args.toList with
+  | "servername", [h] =>
+    match unhex h with
+    | none => some "bad-op"
+    | some s =>
+      let m := showSN (parseServerName s)
+      let sp := if longPort s then "unspecified:port-with-more-than-5-digits"
+                else uniq (fun x => showSN (some x)) (Spec.serverNameParses s)
+      some (m ++ "\t" ++ sp)
+  | "userid", [hist, h] =>
+    match unhex h with
+    | none => some "bad-op"
+    | some s =>
+      let hb := hist == "1"
+      let m := showPair (parseUserID s hb)
+      let sp := if longPortAfterFirstColon s then "unspecified:port-with-more-than-5-digits"
+                else uniq (fun x => showPair (some x)) (Spec.userIDParses hb s)
+      some (m ++ "\t" ++ sp)
+  | "roomid", [h] =>
+    match unhex h with
+    | none => some "bad-op"
+    | some s =>
+      let m := showRoom (parseRoomID s)
+      let sp := if longPortAfterFirstColon s then "unspecified:port-with-more-than-5-digits"
+                else uniq (fun x => showRoom (some x)) (Spec.roomIDParses s)
+      some (m ++ "\t" ++ sp)
+  | "splitid", [sg, h] =>
+    match unhex sg, unhex h with
+    | some [sigil], some s =>
+      let m := match splitID sigil s with
+        | .ok l d => showPair (some (l, d))
+        | .error => "err"
+        | .panic => "panic:event.go:SplitID:slice bounds out of range"
+      -- specification: s = sigil ++ local ++ ":" ++ domain with no ':' in sigil ++ local
+      let sp := match s with
+        | c :: _ =>
+          if c != sigil then "err"
+          else uniq (fun (x : BS × BS) => showPair (some (x.1.drop 1, x.2)))
+                 ((Spec.colonSplits s).filter (fun x => !x.1.contains 0x3A))
+        | [] => "err"
+      some (m ++ "\t" ++ sp)
+    | _, _ => some "bad-op"
+  | "parseip", [h] =>
+    match unhex h with
+    | none => some "bad-op"
+    | some s => some (match parseIP s with | some ip => "ok:" ++ hex ip | none => "err")
+  | "isip", [h] =>
+    match unhex h with
+    | none => some "bad-op"
+    | some s =>
+      let m := if (parseIP s).isSome then "ip" else "err"
+      let sp := if Spec.isIPLiteral s then "ip" else "err"
+      some (m ++ "\t" ++ sp)
+  | _, _ => none
 
 end V.Driver.IdentOps
